@@ -36,6 +36,8 @@ def _ops_history(r, n_modules_hint: int = 6) -> list[dict]:  # noqa: ANN001
         {"op": "GEN", "flag": first_flag, "model": "fresh"},
         {"op": "GEN", "flag": not first_flag, "model": "fresh"},
         {"op": "GEN_SEQ", "flag": False, "model": "fresh", "order_seed": r.getrandbits(32), "prefix": 1.0},
+        {"op": "GEN_SEQ", "flag": first_flag, "model": "fresh", "order_mode": "model", "prefix": 1.0},
+        {"op": "GEN_SEQ", "flag": first_flag, "model": "fresh", "order_mode": "reversed", "prefix": 1.0},
     ]
     for _ in range(r.randint(3, 8)):
         k = r.choice(["GEN", "GEN", "GEN", "GEN_SEQ", "GEN_ONE", "DICT", "WRITE", "JSON"])
